@@ -143,6 +143,16 @@ fn exec_all(w: &mut dyn Write, a: &MultiPolygon<f64>, touch: i64, general: bool,
             let p = &ma.0[0];
             tri_event(w, "earcut", guard(|| Ok(p.earcut_triangles())));
             emitted += 1;
+            if all || k % 4 == 1 {
+                // the two other entry points: the lazy iterator and the raw (flat vertices + index triples) form, decoded here
+                tri_event(w, "earcut", guard(|| Ok(p.earcut_triangles_iter().collect::<Vec<_>>())));
+                tri_event(w, "earcut", guard(|| {
+                    let raw = p.earcut_triangles_raw();
+                    let v = |i: usize| Coord { x: raw.vertices[2 * i], y: raw.vertices[2 * i + 1] };
+                    Ok(raw.triangle_indices.chunks(3).map(|t| Triangle::new(v(t[0]), v(t[1]), v(t[2]))).collect::<Vec<_>>())
+                }));
+                emitted += 2;
+            }
         }
         // ---- Delaunay (both trait generations), Polygon or MultiPolygon entry point
         let cdt = if single && k % 2 == 0 {
